@@ -138,6 +138,13 @@ def binary_scenario(alpha_kind, use_01, shape, scale_axis=None, bounds_po2=None,
     s.vars["x"] = x.e
     s.replay = {"class": cls, "kwargs": {k: (v if not isinstance(v, SNum) else v.e) for k, v in kw.items()},
                 "shape": list(shape)}
+    if eps is not None and alpha_kind in ("auto", "auto_po2") and not bounds_po2:
+      # positions: the element-wise proof below cannot tell repeat from tile (one generic element); bounded native probe
+      s.info["native_probes"] = [{"clause": "group_scale_positions", "kind": "c04_eps_probe",
+                                  "witness": {"class": cls, "kwargs": {"use_01": use_01, "alpha": alpha_kind, "scale_axis": scale_axis,
+                                                                       "elements_per_scale": eps},
+                                              "shape": list(shape), "scale_axis": scale_axis, "eps": eps},
+                                  "bound": "native run on 3 seeded tensors whose blocks differ in magnitude by powers of 4"}]
     r = Q.call(ip, q, x)
     s.claim("no_raise", r[0] == "return")
     if r[0] != "return":
